@@ -505,3 +505,92 @@ func c06Drive(args []string) int {
 }
 
 func init() { cmds["c06-drive"] = c06Drive }
+
+// ---- line lengths around the readers' buffer sizes (bufio 4096; 16 / 64 KiB): multi-row records whose first rows are
+// exactly as long as, one shorter and one longer than the buffer, with LF and CRLF line ends.  The oracle is the generated
+// line itself (head and tail columns of every row).
+func c06Boundary(args []string) int {
+	sum := newSummary()
+	lengths := []int{4090, 4093, 4094, 4095, 4096, 4097, 4098, 4100, 8190, 8191, 8192, 8193, 65534, 65535, 65536, 65537}
+	mkLine := func(prefix string, n, salt int) string {
+		b := make([]byte, n)
+		for i := range b {
+			b[i] = byte('a' + (i*7+salt)%26)
+		}
+		copy(b, prefix)
+		return string(b)
+	}
+	for _, format := range []string{"fixedlength2", "fixed-length"} {
+		for _, shape := range []string{"rows", "hf"} {
+			if format == "fixed-length" && shape == "hf" {
+				continue
+			}
+			for _, n := range lengths {
+				for _, eol := range []string{"\n", "\r\n"} {
+					var cols, recdecl string
+					head := func(name string, li int, pat string) string {
+						sel := fmt.Sprintf(`"line_index": %d`, li)
+						if format == "fixed-length" || shape == "hf" {
+							sel = `"line_pattern": "^` + pat + `"`
+						}
+						return fmt.Sprintf(`{"name": "%s_head", "start_pos": 1, "length": 8, %s}, {"name": "%s_tail", "start_pos": %d, "length": 50, %s}`, name, sel, name, n-7, sel)
+					}
+					cols = head("r1", 1, "H") + ", " + head("r2", 2, "S") + ", " + head("r3", 3, "F")
+					switch {
+					case format == "fixed-length":
+						recdecl = `"by_rows": 3`
+					case shape == "rows":
+						recdecl = `"name": "R", "rows": 3`
+					default:
+						recdecl = `"name": "R", "header": "^H", "footer": "^F"`
+					}
+					schema := `{"parser_settings": {"version": "omni.2.1", "file_format_type": "` + format + `"},
+ "file_declaration": {"envelopes": [{` + recdecl + `, "columns": [` + cols + `]}]},
+ "transform_declarations": {"FINAL_OUTPUT": {"object": {"x": {"const": "1"}}}}}`
+					sch, e, p := newSchema([]byte(schema))
+					if e != nil || p != "" {
+						fmt.Println("error: boundary schema rejected", e, p, schema)
+						return 3
+					}
+					var input strings.Builder
+					var want []obsRec
+					for rec := 0; rec < 3; rec++ {
+						l1, l2, l3 := mkLine("H", n, rec), mkLine("S", n/2+rec, rec+1), mkLine("F", 20+rec, rec+2)
+						input.WriteString(l1 + eol + l2 + eol)
+						if rec == 1 {
+							input.WriteString(eol) // a blank line inside the record
+						}
+						input.WriteString(l3 + eol)
+						tail := func(s string) string {
+							if len(s) < n-7 {
+								return ""
+							}
+							return s[n-8:]
+						}
+						want = append(want, obsRec{{"r1_head", l1[:8]}, {"r1_tail", tail(l1)}, {"r2_head", l2[:8]}, {"r2_tail", tail(l2)}, {"r3_head", l3[:8]}, {"r3_tail", tail(l3)}})
+					}
+					var got []obsRec
+					var end, detail string
+					pv, _ := guarded(0, func() { got, end, detail = runFlat(sch, input.String(), 10) })
+					sum.eval(true, M{"f": format, "s": shape, "n": n, "e": eol})
+					if pv != "" || end != "eof" || fmt.Sprint(got) != fmt.Sprint(want) {
+						diff := ""
+						for i := range want {
+							if i < len(got) && fmt.Sprint(got[i]) != fmt.Sprint(want[i]) {
+								diff = fmt.Sprintf("record %d: got %.200v want %.200v", i+1, got[i], want[i])
+								break
+							}
+						}
+						violation("C06", "buffer-boundary-"+format, fmt.Sprintf("%s %s record with a first row of %d bytes, line end %q: columns differ from the input text (%s %s %s) %s", format, shape, n, eol, end, detail, pv, diff),
+							M{"format": format, "shape": shape, "line_length": n, "eol": eol, "schema": schema})
+					}
+				}
+			}
+		}
+	}
+	sum.sample(M{"lengths": lengths, "formats": []string{"fixedlength2 rows=3", "fixedlength2 header/footer", "fixed-length by_rows=3"}})
+	sum.done()
+	return 0
+}
+
+func init() { cmds["c06-boundary"] = c06Boundary }
